@@ -19,8 +19,8 @@ EXTENDS Pipeline, Json, IOUtils
 
 Cases == JsonDeserialize(IOEnv.CASES)
 
-VARIABLES cid, pc, l, t, Vs, verdict, exact
-vars == <<cid, pc, l, t, Vs, verdict, exact>>
+VARIABLES cid, pc, l, t, Vs, verdict, exact, nrows, nskip
+vars == <<cid, pc, l, t, Vs, verdict, exact, nrows, nskip>>
 
 C      == Cases[cid]
 M      == C.mdl
@@ -34,6 +34,7 @@ Fail(clause, detail) == <<"FAIL", clause, detail>>
 Init ==
   /\ cid \in 1..Len(Cases)
   /\ pc = "scope" /\ l = 1 /\ t = 0 /\ Vs = <<>> /\ verdict = <<"run">> /\ exact = TRUE
+  /\ nrows = 0 /\ nskip = 0
 
 (* ------------------------------------------------------------ scope *)
 TrScope ==
@@ -41,7 +42,7 @@ TrScope ==
   /\ LET why == StaticScope(M)
      IN IF why # "" THEN verdict' = <<"SKIP", why>> /\ pc' = "done" /\ t' = 0
         ELSE verdict' = verdict /\ pc' = (IF NeedV THEN "spec" ELSE "events") /\ t' = M.T
-  /\ UNCHANGED <<cid, l, Vs, exact>>
+  /\ UNCHANGED <<cid, l, Vs, exact, nrows, nskip>>
 
 (* ------------------------------------------------------------ the specification's own solution *)
 TrSpecSolve ==
@@ -51,7 +52,7 @@ TrSpecSolve ==
   /\ LET why == ScopeOfV(M, Vs'[1])
      IN IF why # "" THEN verdict' = <<"SKIP", why>> /\ pc' = "done"
         ELSE verdict' = verdict /\ pc' = (IF t = 1 THEN "events" ELSE "spec")
-  /\ UNCHANGED <<cid, l, exact>>
+  /\ UNCHANGED <<cid, l, exact, nrows, nskip>>
 
 (* ------------------------------------------------------------ template (C07) *)
 TemplateFail(ev) ==
@@ -70,7 +71,7 @@ TrTemplate ==
   /\ Running /\ pc = "events" /\ l <= Len(C.events) /\ Ev.e = "template"
   /\ verdict' = (IF Grp("template") THEN TemplateFail(Ev) ELSE verdict)
   /\ l' = l + 1
-  /\ UNCHANGED <<cid, pc, t, Vs, exact>>
+  /\ UNCHANGED <<cid, pc, t, Vs, exact, nrows, nskip>>
 
 (* ------------------------------------------------------------ solve (C01, C05) *)
 SpecFlat(p) == Flat(M, Vs[p + 1])
@@ -96,7 +97,7 @@ TrSolve ==
           /\ exact' = (exact /\ verdict'[1] = "run" /\ SolveExact(Ev))
      ELSE UNCHANGED <<verdict, exact>>
   /\ l' = l + 1
-  /\ UNCHANGED <<cid, pc, t, Vs>>
+  /\ UNCHANGED <<cid, pc, t, Vs, nrows, nskip>>
 
 (* ------------------------------------------------------------ simulate: the frame (C13) *)
 SimN(ev) == ev.N
@@ -117,7 +118,7 @@ TrSimFrame ==
   /\ Running /\ pc = "events" /\ l <= Len(C.events) /\ Ev.e = "simulate"
   /\ verdict' = FrameFail(Ev)
   /\ pc' = "sim" /\ t' = 0
-  /\ UNCHANGED <<cid, l, Vs, exact>>
+  /\ UNCHANGED <<cid, l, Vs, exact, nrows, nskip>>
 
 (* ------------------------------------------------------------ simulate: one period *)
 RowAt(ev, p, i) == ev.rows[p * ev.N + i]
@@ -143,20 +144,22 @@ RowVerdict(ev, p, i) ==
       r02 == IF Grp("c02") THEN RowChoice(M, p, IF p = M.T - 1 THEN <<>> ELSE VInUse(ev, p + 1), row, Tol) ELSE ""
       r06 == IF Grp("c06") THEN RowC06(ev, p, row) ELSE ""
   IN IF r13 # "" THEN r13 ELSE IF r03 # "" THEN r03 ELSE IF r02 # "" THEN r02 ELSE r06
-SkipSet == {"SKIP:transition-into-excluded-state", "SKIP:ill-defined-arithmetic", "SKIP:agent-outside-space"}
+SkipSet == {"SKIP:transition-into-excluded-state", "SKIP:ill-defined-arithmetic",
+            "SKIP:agent-outside-space", "SKIP:no-feasible-choice"}
 
+\* rows outside the scope of the properties are counted (nskip), not judged
 TrSimPeriod ==
   /\ Running /\ pc = "sim" /\ t < M.T
   /\ LET ev   == Ev
          res  == [i \in 1..ev.N |-> RowVerdict(ev, t, i)]
          bad  == {i \in 1..ev.N : res[i] \notin SkipSet \cup {""}}
          skip == {i \in 1..ev.N : res[i] \in SkipSet}
-     IN IF bad # {}
-        THEN LET k == CHOOSE k \in bad : \A j \in bad : k <= j
-             IN verdict' = Fail(res[k], ToString(<<"period", t, "agent", k - 1, "row", RowAt(ev, t, k)>>))
-        ELSE IF skip # {}
-        THEN verdict' = <<"SKIP", res[CHOOSE k \in skip : TRUE]>>
-        ELSE verdict' = verdict
+     IN /\ IF bad # {}
+           THEN LET k == CHOOSE k \in bad : \A j \in bad : k <= j
+                IN verdict' = Fail(res[k], ToString(<<"period", t, "agent", k - 1, "row", RowAt(ev, t, k)>>))
+           ELSE verdict' = verdict
+        /\ nrows' = nrows + ev.N
+        /\ nskip' = nskip + Cardinality(skip)
   /\ t' = t + 1
   /\ IF t = M.T - 1 THEN pc' = "events" /\ l' = l + 1 ELSE UNCHANGED <<pc, l>>
   /\ UNCHANGED <<cid, Vs, exact>>
@@ -196,7 +199,7 @@ TrRel ==
   /\ Running /\ pc = "events" /\ l <= Len(C.events) /\ Ev.e \in {"rel-solve", "rel-sim"}
   /\ verdict' = (IF Ev.e = "rel-solve" THEN RelSolveFail(Ev) ELSE RelSimFail(Ev))
   /\ l' = l + 1
-  /\ UNCHANGED <<cid, pc, t, Vs, exact>>
+  /\ UNCHANGED <<cid, pc, t, Vs, exact, nrows, nskip>>
 
 (* ------------------------------------------------------------ exceptions *)
 \* an exception raised by lcm on an accepted, in-scope model: the call did not deliver
@@ -204,17 +207,17 @@ TrError ==
   /\ Running /\ pc = "events" /\ l <= Len(C.events) /\ Ev.e = "error"
   /\ verdict' = Fail("crash", ToString(<<Ev.op, Ev.cls, Ev.msg>>))
   /\ l' = l + 1
-  /\ UNCHANGED <<cid, pc, t, Vs, exact>>
+  /\ UNCHANGED <<cid, pc, t, Vs, exact, nrows, nskip>>
 
 (* ------------------------------------------------------------ end of trace *)
 TrDone ==
   /\ Running /\ pc = "events" /\ l > Len(C.events)
   /\ verdict' = <<"ok">> /\ pc' = "done"
-  /\ UNCHANGED <<cid, l, t, Vs, exact>>
+  /\ UNCHANGED <<cid, l, t, Vs, exact, nrows, nskip>>
 
 Next == TrScope \/ TrSpecSolve \/ TrError \/ TrTemplate \/ TrSolve \/ TrSimFrame \/ TrSimPeriod \/ TrRel \/ TrDone
 Spec == Init /\ [][Next]_vars
 
 \* one line per case when its verdict is reached
-Report == (verdict[1] # "run") => PrintT(<<"VERDICT", ToJson([cid |-> C.cid, v |-> verdict, exact |-> exact])>>)
+Report == (verdict[1] # "run") => PrintT(<<"VERDICT", ToJson([cid |-> C.cid, v |-> verdict, exact |-> exact, nrows |-> nrows, nskip |-> nskip])>>)
 =============================================================================
